@@ -606,10 +606,14 @@ mod query {
     ) -> Result<Option<ByRevision>, Error> {
         let revision_id = *id;
         let mut stmt = db.prepare(
+            // Only the direct children of `$.revisions` are revisions: `json_tree` would also
+            // visit the keys of nested objects, eg. the comments of a revision's discussion.
+            // A redacted revision is stored as `null`, and is not found.
             "SELECT patches.id, patch, revisions.value AS revision
-             FROM patches, json_tree(patches.patch, '$.revisions') AS revisions
+             FROM patches, json_each(patches.patch, '$.revisions') AS revisions
              WHERE repo = ?1
              AND revisions.key = ?2
+             AND revisions.type <> 'null'
             ",
         )?;
         stmt.bind((1, rid))?;
